@@ -27,10 +27,10 @@ RULE = ("a case = one history on one configuration (static_set / flat_set over s
         "construction from every sequence of length <= 4 over 0..3 plus random longer ones; flat_set with a STORED "
         "run-time comparator (s constructed ascending, t descending; swap / copy assignment / assigning constructors "
         "change the order of the current set): from every reachable set, after five swap/copy preambles, every call. "
-        "QUICK tier = the boundary-aimed core (about 230k cases): every reachable set x every single call for the "
+        "QUICK tier = the boundary-aimed core (about 277k cases): every reachable set x every single call for the "
         "configurations of QUICK_PLAN, a seeded sample of the call pairs (15% for static_set<less>, 5% for "
         "static_set<half> and flat_set<less>, 0.5% elsewhere), depth <= 3 histories (+10% of depth 4), 100 random "
-        "histories per configuration; THOROUGH tier (about 1.5M cases) = all configurations x capacity 3 and 4, both build orders, all pairs for "
+        "histories per configuration; THOROUGH tier (about 1.84M cases) = all configurations x capacity 3 and 4, both build orders, all pairs for "
         "static_set<less/half> and flat_set<less> at capacity 3 and 3% of the pairs elsewhere, triples from the nearly full "
         "static_set<less>, depth <= 4 histories (+10% of depth 5), 2000 random histories per configuration. "
         "Added by the review (both tiers): from every reachable set at capacity 3 EVERY hint position begin..end x every key "
@@ -44,8 +44,16 @@ RULE = ("a case = one history on one configuration (static_set / flat_set over s
         "capacity-aware random histories whose every call is inside its domain (reference leg never na; capacity 8 over "
         "keys -3..8 with 60% starting from 5..8 keys, capacity 4 over 0..5; 120+60 per configuration quick, 1500 thorough); "
         "at capacity 8 every lookup is asked for every key -3..8; a second transparent comparator, etl::greater<> with the "
-        "heterogeneous point and band keys (static_set / flat_set over static_vector<int>, capacity 3 and 8). non-trivial = distinct case line whose history reaches a "
-        "non-empty set")
+        "heterogeneous point and band keys (static_set / flat_set over static_vector<int>, capacity 3 and 8). "
+        "Added by fix-miss round 4 (both tiers): key types whose move assignment TRANSFERS state - the tracked key (take, then "
+        "reset the source, no self-assignment test; counts the element objects a call copies / moves / assigns: after every "
+        "erase(key) / erase(pos) / erase(first, last) / erase_if that removed nothing all four legs print `touched n`, n = 0) and a "
+        "std::string key beyond the small-string buffer; families static_set / flat_set over static_vector with the string key "
+        "(sss, fss) and flat_set over a std container (std::vector behind an adaptor with the model's preconditions) with the "
+        "string / the tracked key (fbs, fbt) as control: from every reachable set at capacity 3 every call (erase of every "
+        "absent key, every empty index pair at begin / middle / end included) with the full contents after every call, every "
+        "hint position (less), random histories at capacity 8 (and domain-respecting ones). non-trivial = distinct case line "
+        "whose history reaches a non-empty set")
 
 TRUSTED_BASE = ["reference leg: libstdc++ 12 std::set / std::multiset with the same comparator, bounded by the capacity "
                 "in the harness (a new key into a full set: failure reported, set unchanged)"]
